@@ -799,6 +799,15 @@ def rebuild_assembly(desc):
             m.reads, m.outputs = list(d['reads']), list(d['outputs'])
             m.vars = {k: dict(type='int', dom=(0, d['modulus'] - 1))
                       for k in m.reads + m.outputs + list(d['extra'])}
+        elif d['kind'] == 'AutomatonStepper' and isinstance(
+                d.get('inst'), dict) and 'action_table' in d['inst']:
+            # replay only: a stepper rebuilt from its recorded tables
+            inst = rebuild_stepper(d['inst'])
+            if inst is None:
+                return None
+            machines[d['name']] = S.Logged(
+                steps.AutomatonStepper(inst['aut']), 'stepper')
+            continue
         else:
             return None
         machines[d['name']] = S.Logged(m)
@@ -950,20 +959,164 @@ def shrink(f):
                    replay_cmd='./check C19 --replay <this file>')
 
 
+def bdd_of_table(aut, ds, flat):
+    """BDD with the given flat truth table over the identifiers ds
+    (row-major, as written by steps_sim.truth_table)."""
+    bdd = aut.bdd
+    per = [[S.bits_of_value(aut, n, v) for v in vals] for n, vals in ds]
+    sizes = [len(vals) for _, vals in ds]
+    total = 1
+    for k in sizes:
+        total *= k
+    if total != len(flat):
+        return None
+    u = bdd.false
+    for idx, t in enumerate(flat):
+        if not t:
+            continue
+        digits, rem = [], idx
+        for k in reversed(sizes):
+            digits.append(rem % k)
+            rem //= k
+        digits.reverse()
+        cube = {}
+        for rows, j in zip(per, digits):
+            cube.update(rows[j])
+        u |= bdd.cube(cube)
+    return u
+
+
+def rebuild_stepper(case):
+    """The instance behind `inst_case(inst)`, for replay: the variables are
+    re-declared with the recorded ranges on a fresh Automaton of the
+    recorded back end, action['impl'] / init['impl'] are rebuilt from the
+    truth tables.  None if the ranges cannot be declared again or the
+    rebuilt predicates do not have the recorded tables."""
+    import omega.symbolic.temporal as trl
+    try:
+        names = {k: list(v) for k, v in case['names'].items()}
+        ds = [(n, list(v)) for n, v in case['decls']]
+        vals = dict(ds)
+
+        def hint(n):
+            # a type hint whose bit range is the recorded one (omega gives
+            # a signed variable one bit more than two's complement needs)
+            v = vals[n]
+            if v and all(isinstance(x, bool) for x in v):
+                return 'bool'
+            for dom in ((min(v), max(v)), (min(v) + 1, max(v)),
+                        (-1, max(v))):
+                if dom[0] > dom[1]:
+                    continue
+                a = trl.Automaton()
+                a.declare_variables(**{n: dom})
+                if list(games.var_values(a.vars[n])) == list(v):
+                    return dom
+            raise ValueError(n)
+        aut = trl.Automaton()
+        games.set_backend(aut, case.get('backend') or 'autoref')
+        const = {n: hint(n) for n in names.get('const', [])}
+        flex = {n: hint(n) for n in names['env'] + names['impl']}
+        if const:
+            aut.declare_constants(**const)
+        aut.declare_variables(**flex)
+        aut.varlist['env'] = list(names['env'])
+        aut.varlist['sys'] = list(names['impl'])
+        aut.varlist['impl'] = list(names['impl'])
+        aut.prime_varlists()
+        for n, v in ds:
+            if n not in aut.vars or \
+                    list(games.var_values(aut.vars[n])) != list(v):
+                return None
+        mode = case.get('mode') or {}
+        for k in ('moore', 'plus_one', 'qinit'):
+            if k in mode:
+                setattr(aut, k, mode[k])
+        act = bdd_of_table(aut, ds, case['action_table'])
+        ini = bdd_of_table(aut, ds, case['init_table'])
+        if act is None or ini is None:
+            return None
+        aut.action['impl'] = act
+        aut.init['impl'] = ini
+        if S.truth_table(aut, act, ds) != list(case['action_table']) or \
+                S.truth_table(aut, ini, ds) != list(case['init_table']):
+            return None
+    except (KeyError, TypeError, ValueError, AssertionError):
+        return None
+    return dict(aut=aut, names=names, kind=case.get('kind'),
+                backend=case.get('backend'), mode=mode, ds=ds,
+                action_tbl=list(case['action_table']),
+                init_tbl=list(case['init_table']), win=None)
+
+
+def replay_stepper(case):
+    """Re-run the recorded call(s) of a single-stepper case on the rebuilt
+    stepper and apply the oracle again."""
+    inst = rebuild_stepper(case)
+    if inst is None:
+        print('the stepper of this case cannot be rebuilt from the file: '
+              're-run ./check C19 with the same seed')
+        return 2
+    lg = S.Logged(_steps().AutomatonStepper(inst['aut']), 'stepper')
+    try:
+        lg.init()
+    except Exception:
+        pass
+    states = []
+    if isinstance(case.get('state'), dict):
+        states.append(case['state'])
+    call = case.get('call')
+    if isinstance(call, (list, tuple)) and call and isinstance(call[0], dict):
+        states.append(call[0])          # (state, logged result)
+    for st in states:
+        try:
+            lg.step(dict(st))
+        except Exception:
+            pass
+    init_log = lg.init_log if lg.init_log is not None else ('err', 'Disabled')
+    fs = oracle_stepper(inst, init_log, lg.step_log)
+    if fs:
+        print('still fails:', fs[0][0])
+        return 1
+    print('passes')
+    return 0
+
+
 def replay(path):
     d = json.load(open(path))
     case = d.get('input') or d.get('case')
     if case and 'machines' in case:
-        if not rebuildable(case):
-            print('this assembly contains a synthesized stepper and cannot be '
-                  'rebuilt from the file: re-run ./check C19 with the same seed')
+        desc = dict(names=case['names'], machines=case['machines'],
+                    steps=case['steps'])
+        built = None
+        try:
+            built = rebuild_assembly(desc)
+        except Exception:
+            built = None
+        if built is None:
+            print('this assembly cannot be rebuilt from the file: re-run '
+                  './check C19 with the same seed')
             return 2
-        r = check_desc(dict(names=case['names'], machines=case['machines'],
-                            steps=case['steps']))
+        result, done = run_assembly(built, desc['steps'])
+        r = oracle_assembly(built, result, done)
+        if not r:
+            # the stepper calls made inside the assembly
+            for dsc in desc['machines']:
+                if dsc.get('kind') == 'AutomatonStepper':
+                    lg = built['machines'][dsc['name']]
+                    if lg.init_log is None:
+                        continue
+                    inst = dict(aut=lg.machine.aut,
+                                names=dsc['inst']['names'])
+                    r = oracle_stepper(inst, lg.init_log, lg.step_log)
+                    if r:
+                        break
         if r:
             print('still fails:', r[0][0])
             return 1
         print('passes')
         return 0
-    print('replay of stepper cases: re-run ./check C19 with the same seed')
+    if case and 'action_table' in case and 'decls' in case:
+        return replay_stepper(case)
+    print('replay of this case: re-run ./check C19 with the same seed')
     return 2
